@@ -215,7 +215,11 @@ func File(t *rapid.T, o Opts) *ir.File {
 		m := g.message(name, i == nMsg-1)
 		f.Messages = append(f.Messages, m)
 	}
-	if o.AllowNullableEmbed && o.AllowNullableEmbedComplex && !o.NoEmbedHeavy && rapid.IntRange(0, 4).Draw(t, "embedheavy") == 0 {
+	pHeavy := 4
+	if o.OneofHeavy {
+		pHeavy = 1 // with OneofHeavy the embedded messages mostly bring oneofs of their own (C07, C15)
+	}
+	if o.AllowNullableEmbed && o.AllowNullableEmbedComplex && !o.NoEmbedHeavy && rapid.IntRange(0, pHeavy).Draw(t, "embedheavy") == 0 {
 		g.embedHeavy(used)
 	}
 	// Declaration order in the file is independent of the reference order.
@@ -332,9 +336,23 @@ func (g *fileGen) embedHeavy(used map[string]bool) {
 			f.Messages = append(f.Messages, e)
 			num++
 			ef := &ir.Field{Name: name, Number: num, Kind: ir.KMessage, Type: name, Embed: true}
-			switch rapid.IntRange(0, 3).Draw(t, "eh_nullable") {
+			nsel := rapid.IntRange(0, 3).Draw(t, "eh_nullable")
+			if g.o.OneofHeavy && nsel >= 2 && rapid.Bool().Draw(t, "eh_byvalue") {
+				nsel = 0
+			}
+			switch nsel {
 			case 0:
 				ef.Nullable = boolp(false)
+				if g.o.AllowOneofInEmbedded && (g.o.OneofHeavy || rapid.Bool().Draw(t, "eh_oneof")) {
+					// a oneof of its own (only in a by-value embedded message: a nullable one with a oneof is outside D):
+					// two embedded messages that each bring a oneof are flattened into one host
+					on := "Choice" + px
+					if lower {
+						on = "choice_" + strings.ToLower(px)
+					}
+					add(&ir.Field{Name: nm("OneA"), Kind: "string", Oneof: on})
+					add(&ir.Field{Name: nm("OneB"), Kind: "int64", Oneof: on})
+				}
 			case 1:
 				ef.Nullable = boolp(true)
 			}
